@@ -139,6 +139,11 @@ func (p *c17) RunCase(ctx *runner.Ctx) runner.CaseResult {
 			if r.Intn(2) == 0 {
 				op.Limit = 1 + r.Intn(3)
 			}
+			if r.Intn(4) == 0 {
+				// what a read is asked to return (only the count, all attributes, the projected ones) is a request option
+				// like the others: the same counts, items and pagination keys from both clients
+				op.Select = mon.Pick(r, []string{"COUNT", "COUNT", "ALL_ATTRIBUTES", "ALL_PROJECTED_ATTRIBUTES"})
+			}
 			if lastKeyOp != nil && r.Intn(2) == 0 {
 				op = *lastKeyOp
 			}
